@@ -111,6 +111,8 @@ def shrink(item, rerun):
             for v in cands:
                 if str(v) == cur or (k in ("th", "sc", "ss") and int(v) >= int(cur)):
                     continue
+                if cur in [str(x) for x in cands] and [str(x) for x in cands].index(cur) < cands.index(v):
+                    continue        # only ever move towards the simpler candidate (termination)
                 c2 = setf(case, k, v)
                 bad, impl, model, sb = fails(c2)
                 if bad:
